@@ -594,6 +594,9 @@ def replay_witness(ctx, entry):
     if "fn" in w:
         from fcv import core
         return core.run_named_witness(entry)
+    if w["law"] == "reflexive":
+        v = predio.run_impl(w["kind"], w["t1"][0], w["t1"][1], w["a"], w["a"])
+        return v != "T", f"(a,a)={v}"
     if w["law"] == "symmetric":
         v1 = predio.run_impl(w["kind"], w["t1"][0], w["t1"][1], w["a"], w["b"])
         v2 = predio.run_impl(w["kind"], w["t1"][0], w["t1"][1], w["b"], w["a"])
